@@ -190,3 +190,157 @@ func SortedKeys(m M) []string {
 	sort.Strings(k)
 	return k
 }
+
+// ---------------------------------------------------------------------------------------------
+// JSON tree mutation (C13 grammar): every node of a valid response replaced by every JSON type.
+
+// Path addresses a node: string = map key, int = list index.
+type Path []interface{}
+
+func (p Path) String() string {
+	s := ""
+	for _, e := range p {
+		switch t := e.(type) {
+		case string:
+			s += "." + t
+		case int:
+			s += "[" + itoa(t) + "]"
+		}
+	}
+	if s == "" {
+		return "."
+	}
+	return s
+}
+
+func itoa(i int) string {
+	if i == 0 {
+		return "0"
+	}
+	s := ""
+	for i > 0 {
+		s = string(rune('0'+i%10)) + s
+		i /= 10
+	}
+	return s
+}
+
+// Paths lists every node of the tree below the root (pre-order, deterministic).
+func Paths(tree interface{}) []Path {
+	var out []Path
+	var walk func(v interface{}, p Path)
+	walk = func(v interface{}, p Path) {
+		switch t := v.(type) {
+		case M:
+			for _, k := range SortedKeys(t) {
+				np := append(append(Path{}, p...), k)
+				out = append(out, np)
+				walk(t[k], np)
+			}
+		case L:
+			for i := range t {
+				np := append(append(Path{}, p...), i)
+				out = append(out, np)
+				walk(t[i], np)
+			}
+		}
+	}
+	walk(tree, nil)
+	return out
+}
+
+// Raw is a literal JSON fragment (lets the grammar emit numbers no Go type holds, e.g. 1e400).
+type Raw string
+
+func (r Raw) MarshalJSON() ([]byte, error) { return []byte(r), nil }
+
+// Missing, as a replacement, removes the node.
+const Missing = Raw("\x00missing")
+
+// Replacements is the C13 value alphabet.
+var Replacements = []Raw{Missing, "null", "true", "0", "-1", "1e400", "9223372036854775808", `"s"`, "[]", "[null]", "{}", `{"x":null}`}
+
+func deepCopyTree(v interface{}) interface{} {
+	switch t := v.(type) {
+	case M:
+		c := M{}
+		for k, x := range t {
+			c[k] = deepCopyTree(x)
+		}
+		return c
+	case L:
+		c := make(L, len(t))
+		for i, x := range t {
+			c[i] = deepCopyTree(x)
+		}
+		return c
+	}
+	return v
+}
+
+// Mutate returns a copy of tree with the node at p replaced (or removed). ok=false if p no longer exists
+// (used when applying a second mutation after a first one removed the subtree).
+func Mutate(tree interface{}, p Path, r Raw) (interface{}, bool) {
+	c := deepCopyTree(tree)
+	if len(p) == 0 {
+		return c, false
+	}
+	cur := c
+	var parent interface{}
+	var parentKey interface{}
+	for i, e := range p[:len(p)-1] {
+		_ = i
+		switch k := e.(type) {
+		case string:
+			m, ok := cur.(M)
+			if !ok {
+				return c, false
+			}
+			nx, ok := m[k]
+			if !ok {
+				return c, false
+			}
+			parent, parentKey, cur = m, k, nx
+		case int:
+			l, ok := cur.(L)
+			if !ok || k >= len(l) {
+				return c, false
+			}
+			parent, parentKey, cur = l, k, l[k]
+		}
+	}
+	switch k := p[len(p)-1].(type) {
+	case string:
+		m, ok := cur.(M)
+		if !ok {
+			return c, false
+		}
+		if _, ok := m[k]; !ok {
+			return c, false
+		}
+		if r == Missing {
+			delete(m, k)
+		} else {
+			m[k] = r
+		}
+	case int:
+		l, ok := cur.(L)
+		if !ok || k >= len(l) {
+			return c, false
+		}
+		if r == Missing {
+			nl := append(append(L{}, l[:k]...), l[k+1:]...)
+			switch pk := parentKey.(type) {
+			case string:
+				parent.(M)[pk] = nl
+			case int:
+				parent.(L)[pk] = nl
+			default:
+				return nl, true // the root itself is the list
+			}
+		} else {
+			l[k] = r
+		}
+	}
+	return c, true
+}
